@@ -102,9 +102,10 @@ instance (syms : List Nat) (evs : List TopoSplit) : Decidable (EvOK syms evs) :=
 /-- the facts about an `S` at decoder index `j`: the right neighbour IS the previously decoded gate corner `P[j-1]`; the
     left neighbour is the gate corner of the component below on the stack (`P[(stk j)[1]]`), or — with a split event
     `(source, split, edge)` for this `S` — the corner `Next / Previous (P[n - 1 - source])` of the earlier decoded source
-    face -/
+    face; the fan of the tip vertex is NOT closed by the faces decoded so far and face `j` (`¬ FanEarlier`: that would be
+    the `C` situation; the encoder emits `S` only at a vertex it has visited before) -/
 def SAt (t : CT) (P : Array Nat) (syms : List Nat) (evs : List TopoSplit) (j : Nat) : Prop :=
-  0 < j ∧ t.opp[Eb.nextC P[j]!]! = P[j - 1]! ∧
+  0 < j ∧ t.opp[Eb.nextC P[j]!]! = P[j - 1]! ∧ ¬ FanEarlier t P j P[j]! ∧
   (hasEv syms.length evs j = false →
     1 < (stk syms evs j).length ∧ t.opp[Eb.prevC P[j]!]! = P[(stk syms evs j)[1]!]!) ∧
   (hasEv syms.length evs j = true →
